@@ -49,6 +49,7 @@ Evaluate == phase = "case" /\ phase' = "emitted" /\ c' = c /\ Emit
 Next == Evaluate
 Spec == Init /\ [][Next]_vars
 InvOrder == c.kind = "vec" => OrderLemmas(c.v)
+InvEmpty == EmptyIsUndefined
 InvWindow == c.kind = "win" => WindowLemmas(c.w.grid, c.w.h)
 \* ---- witnesses against vacuity (tools/vacuity.py): each is the NEGATION of a lemma's antecedent and must be VIOLATED by some enumerated case ----
 W_IncreasingGrid == ~(c.kind = "win" /\ IncreasingGrid(c.w.grid) /\ Len(c.w.grid) >= 3)
